@@ -92,6 +92,11 @@ def tucker_als(  # noqa: PLR0912, PLR0913, PLR0915
     rank = parse_one_d(rank)
     if len(rank) == 1:
         rank = rank.repeat(N)
+    if len(rank) != N or np.any(rank < 1) or np.any(rank > np.array(input_tensor.shape)):
+        raise ValueError(
+            "Rank must be a scalar or one rank per mode, each between 1 and the "
+            f"mode size. Shape: {input_tensor.shape} but got rank: {rank}."
+        )
 
     # Set up dimorder if not specified
     if dimorder is None:
